@@ -1088,6 +1088,15 @@ type getters interface {
 func (h *harness) reconfigure() {
 	any := false
 	for i, n := range h.sc.Nodes {
+		if f, ok := h.nodes[i].(*flyt.Flow); ok {
+			for _, c := range n.LateConns {
+				var to flyt.Node
+				if c.To >= 0 {
+					to = h.nodes[c.To]
+				}
+				f.Connect(h.nodes[c.From], flyt.Action(c.Action), to)
+			}
+		}
 		if len(n.Reconf) == 0 {
 			continue
 		}
